@@ -207,10 +207,20 @@ impl Out {
         }
         // stats.json (hand-written JSON; strings are escaped minimally)
         let esc = |s: &str| {
-            s.replace('\\', "\\\\")
-                .replace('"', "\\\"")
-                .replace('\n', "\\n")
-                .replace('\t', " ")
+            let mut o = String::with_capacity(s.len());
+            for c in s.chars() {
+                match c {
+                    '\\' => o.push_str("\\\\"),
+                    '"' => o.push_str("\\\""),
+                    '\n' => o.push_str("\\n"),
+                    '\t' => o.push(' '),
+                    c if (c as u32) < 0x20 || c == '\u{7f}' => {
+                        let _ = write!(o, "\\u{:04x}", c as u32);
+                    }
+                    c => o.push(c),
+                }
+            }
+            o
         };
         let mut j = String::new();
         let _ = write!(j, "{{\"stream\":\"{}\",\"cases\":{},\"ops\":{},\"distinct_nontrivial\":{},\"histogram\":{{", esc(stream), self.cases, self.ops.len(), self.distinct.len());
